@@ -116,7 +116,7 @@ func exec(ops []string, o *vu.Out) {
 		o.Op(line, "ok")
 
 		// ---- oracles: the clauses of C50 stated on the implementation.
-		// (1) A processed "xn--" label whose payload decodes to ASCII only must be rejected.
+		// (1) A processed "xn--" label whose payload decodes to ASCII only (or to nothing) must be rejected.
 		procLabels := x
 		if pr.maps {
 			procLabels = foldDots(lowerASCII(x))
@@ -124,10 +124,10 @@ func exec(ops []string, o *vu.Out) {
 		if anyLabel(procLabels, asciiOnlyALabel) {
 			o.Stat("region:ascii-only-alabel")
 			if ae == nil {
-				o.Fail("idna-ascii-only-alabel-accepted", fmt.Sprintf("%s.ToASCII(%q) = %q, nil: an 'xn--' label decoding to ASCII only is accepted (unicode16=%v)", pr.name, x, a, idna.VerifUnicode16))
+				o.Fail("", fmt.Sprintf("%s.ToASCII(%q) = %q, nil: an 'xn--' label decoding to ASCII only is accepted (unicode16=%v)", pr.name, x, a, idna.VerifUnicode16))
 			}
 			if ue == nil {
-				o.Fail("idna-ascii-only-alabel-accepted", fmt.Sprintf("%s.ToUnicode(%q) = %q, nil: an 'xn--' label decoding to ASCII only is accepted (unicode16=%v)", pr.name, x, u, idna.VerifUnicode16))
+				o.Fail("", fmt.Sprintf("%s.ToUnicode(%q) = %q, nil: an 'xn--' label decoding to ASCII only is accepted (unicode16=%v)", pr.name, x, u, idna.VerifUnicode16))
 			}
 		}
 		// (2) A processed "xn--" label whose payload contains a non-ASCII code point is invalid Punycode.
@@ -136,10 +136,6 @@ func exec(ops []string, o *vu.Out) {
 			if ae == nil {
 				o.Fail("idna-nonascii-alabel-payload-accepted", fmt.Sprintf("%s.ToASCII(%q) = %q, nil: an 'xn--' label with a non-ASCII payload is accepted", pr.name, x, a))
 			}
-		}
-		// the monitor (and the remaining oracles) leave the known deviation region alone
-		if anyLabel(foldDots(lowerASCII(x)), asciiOnlyALabel) || anyLabel(foldDots(lowerASCII(u)), asciiOnlyALabel) {
-			continue
 		}
 		if isASCIILower(x) {
 			undec := anyLabel(x, func(l string) bool {
